@@ -118,6 +118,7 @@ class Ctx:
         self.prop = program["property"]
         self.cfg = program.get("config", {})
         self.seed = program.get("run_seed", 0)
+        world.enter_simulation(self.seed)  # OS entropy, Python's `random`, the `time` module: functions of the run seed
         self.mode = program.get("mode", "seed")  # seed | explicit
         self.model = RngModel()
         self.ledger = Ledger(readonly=bool(program.get("readonly")))
@@ -420,7 +421,7 @@ class Ctx:
                 "first_digest": jhash(prev["out"]), "second_digest": jhash(out),
                 "first_kind": prev["out"][0], "second_kind": out[0],
                 "global_state_differs": prev["state"] != now_state,
-                "rng_touched_by": world.RNG_TOUCH[-6:]})
+                "rng_touched_by": world.RNG_TOUCH[-6:], "os_entropy_read_by": world.ENTROPY.touch[-6:]})
 
     # ------------------------------------------------------------------------ invariants
     def snapshot_eval(self, fn):
